@@ -1,6 +1,7 @@
 package main
 
 import (
+	"bytes"
 	"context"
 	"errors"
 	"fmt"
@@ -16,6 +17,9 @@ import (
 	"github.com/LiskHQ/lisk-engine/pkg/log"
 	"github.com/LiskHQ/lisk-engine/pkg/p2p"
 
+	"github.com/LiskHQ/lisk-engine/pkg/trie/rmt"
+
+	"verifharness/internal/exh"
 	"verifharness/internal/hx"
 )
 
@@ -39,6 +43,7 @@ type chainReq struct {
 	Panic  string   `json:"panic,omitempty"` // recovered panic site
 	Hang   bool     `json:"hang,omitempty"`  // watchdog
 	Undec  bool     `json:"undec,omitempty"` // response not decodable
+	Body   []bool   `json:"body"`            // per served block: its full encoding (header, transactions, assets) equals the stored block's
 }
 
 type chainRec struct {
@@ -75,14 +80,27 @@ func getConn() *p2p.Connection {
 
 func mkBlock(height uint32, prev []byte, salt uint32) *blockchain.Block {
 	z := make([]byte, 32)
+	// a payload: 0..2 transactions and possibly an asset, so that a block served without its body is noticed
+	txs := []*blockchain.Transaction{}
+	for i := uint32(0); i < (height+salt)%3; i++ {
+		txs = append(txs, exh.MakeTx(uint64(height)*8+uint64(salt)*3+uint64(i), int(4+i)))
+	}
+	assets := blockchain.BlockAssets{}
+	if (height+salt)%2 == 1 {
+		assets = blockchain.BlockAssets{&blockchain.BlockAsset{Module: "random", Data: []byte{byte(height), byte(salt), 7}}}
+	}
+	ids := make([][]byte, len(txs))
+	for i, tx := range txs {
+		ids[i] = tx.ID
+	}
 	h := &blockchain.BlockHeader{
 		Version: 2, Height: height, Timestamp: 1000 + salt, PreviousBlockID: prev, GeneratorAddress: make([]byte, 20),
-		TransactionRoot: z, AssetRoot: z, EventRoot: z, StateRoot: z, ValidatorsHash: z,
+		TransactionRoot: rmt.CalculateRoot(ids), AssetRoot: assets.GetRoot(), EventRoot: z, StateRoot: z, ValidatorsHash: z,
 		MaxHeightPrevoted: 0, MaxHeightGenerated: 0,
 		AggregateCommit: &blockchain.AggregateCommit{Height: 0, AggregationBits: []byte{}, CertificateSignature: []byte{}},
 		Signature:       make([]byte, 64),
 	}
-	b := &blockchain.Block{Header: h, Assets: blockchain.BlockAssets{}, Transactions: []*blockchain.Transaction{}}
+	b := &blockchain.Block{Header: h, Assets: assets, Transactions: txs}
 	b.Init()
 	return b
 }
@@ -170,9 +188,13 @@ func runChain(heights [3]uint32, cache int, reqs []chainReq) (rec chainRec) {
 	}
 	syncer := csync.NewSyncer(chain, validator.NewBlockSlot(0, 10), getConn(), lg, noProc, noRev)
 
+	stored := map[string][]byte{}
+	for _, blk := range all {
+		stored[string(blk.Header.ID)] = blk.Encode()
+	}
 	for i := range rec.Reqs {
 		q := &rec.Reqs[i]
-		q.Out, q.OutH = []uint64{}, []uint32{}
+		q.Out, q.OutH, q.Body = []uint64{}, []uint32{}, []bool{}
 		var handler p2p.RPCHandler
 		req := &p2p.Request{ID: "1", Procedure: "x", PeerID: p2p.PeerID("verif-peer")}
 		switch q.T {
@@ -262,6 +284,7 @@ func runChain(heights [3]uint32, cache int, reqs []chainReq) (rec chainRec) {
 				b.Init()
 				q.Out = append(q.Out, codeOf(b.Header.ID))
 				q.OutH = append(q.OutH, b.Header.Height)
+				q.Body = append(q.Body, bytes.Equal(b.Encode(), stored[string(b.Header.ID)]))
 			}
 		case "last":
 			b, err := blockchain.NewBlock(w.data)
@@ -271,6 +294,7 @@ func runChain(heights [3]uint32, cache int, reqs []chainReq) (rec chainRec) {
 			}
 			q.Out = append(q.Out, codeOf(b.Header.ID))
 			q.OutH = append(q.OutH, b.Header.Height)
+			q.Body = append(q.Body, bytes.Equal(b.Encode(), stored[string(b.Header.ID)]))
 		}
 	}
 	return rec
@@ -307,13 +331,13 @@ func genHandlers(o *hx.Out, r *hx.Rng, n int) {
 			del = uint32(r.Intn(int(length)%5 + 1))
 		}
 		cache := []int{1, 2, 5, 30, 515}[r.Intn(5)]
-		// the block cache is not refilled on removal: keep at least the tip cached (deep deletes beyond the cache
-		// leave Chain.LastBlock() nil; that is the subject of the chain properties, not of the handlers)
-		if int(del) >= cache {
-			del = uint32(cache - 1)
-		}
-		if uint64(length)+1 < uint64(cache) && del > length {
-			del = length
+		// the responder may have removed MORE blocks than its block cache holds (a deep revert): the cache is refilled from the
+		// database then, and what it serves afterwards must still be the full stored blocks
+		if cache <= 5 && length > uint32(cache) && r.Intn(2) == 0 {
+			del = uint32(cache) + uint32(r.Intn(int(length)-cache+1))
+			if del > length {
+				del = length
+			}
 		}
 		kept := length - del
 		ownCode := func() uint64 { return uint64(g0) + uint64(r.Intn(int(kept)+1)) }
